@@ -52,9 +52,17 @@ def key_serializer(vc):
         pki += kind == 'P'
         primary['k%d' % i] = col
     partition = OrderedDict(k for k in primary.items() if k[1].partition_key)
-    loc = vc.exec_slice('cassandra.cqlengine.models.ModelMetaClass.__new__', r"^if attrs\.get\('__compute_routing_key__', True\)",
+    # the statement is found by what it decides on (the model's __compute_routing_key__ switch, tested either way round), and the two locals it leaves behind
+    # by where __new__ publishes them (attrs['_partition_key_index'] = <name>, attrs['_key_serializer'] = <name>): renames and a flipped if/else do not matter
+    import inspect
+    import re as _re
+    from cassandra.cqlengine.models import ModelMetaClass
+    src = inspect.getsource(ModelMetaClass.__new__)
+    name_of = lambda key, default: (_re.search(r"attrs\['%s'\]\s*=\s*([A-Za-z_]\w*)\s*$" % key, src, _re.M) or [None, default])[1]
+    idx_name, ser_name = name_of('_partition_key_index', 'partition_key_index'), name_of('_key_serializer', 'key_serializer')
+    loc = vc.exec_slice('cassandra.cqlengine.models.ModelMetaClass.__new__', r"^if (not )?attrs\.get\('__compute_routing_key__', True\)",
                         {'attrs': {}, 'partition_keys': partition, 'primary_keys': primary, 'clustering_keys': OrderedDict(k for k in primary.items() if not k[1].partition_key)})
-    idx, ser = loc.get('partition_key_index'), loc.get('key_serializer')
+    idx, ser = loc.get(idx_name), loc.get(ser_name)
     pcols = list(partition.values())
     vc.check('index/position-among-the-partition-key-columns', idx == {c.db_field_name: i for i, c in enumerate(pcols)})
     parts = ['value%d' % i for i in range(len(pcols))]
